@@ -611,6 +611,10 @@ class BeltStore(Store):
 
         # Add the item if space is available
         if len(self.items)+len(self.ready_items) < self.capacity:
+            # the travel bookkeeping is read by _do_reserve_put as soon as the item is on the belt,
+            # i.e. possibly before its move process has run its first step
+            item[0].total_interruption_time = 0
+            item[0].interruption_start_time = None
             self.items.append(item)
             self._update_time_averaged_level()
             #self.env.process(self.move_to_ready_items(item))
